@@ -52,9 +52,9 @@ def load_jobs():
         j.setdefault("defines", [])
         j.setdefault("cbmc_flags", [])
         j.setdefault("cc_flags", [])
-        j.setdefault("timeout", 120)
+        j.setdefault("timeout", 300)
         j.setdefault("mem_gb", 12)
-        j.setdefault("solver", "minisat")
+        j.setdefault("solver", "cadical")
         j.setdefault("reach", ["reach"])  # prefixes of assert(0) guards that must FAIL
         j.setdefault("loops", True)
         j.setdefault("contracts", [])
